@@ -57,6 +57,9 @@ func (w *World) NewProgSet(sp *ProgSpec, name, loaderKind string) *pongo2.Templa
 		set.Globals["glob"] = "G<" + name + ">"
 	}
 	set.Debug = sp.DebugSet
+	if sp.BadGlobal {
+		set.Globals["bad-global"] = "a name that is not an identifier"
+	}
 	return set
 }
 
